@@ -8,7 +8,7 @@ typedef ob::DubinsStateSpace::DubinsPath Path;
 Path dubins(double d, double alpha, double beta);     // the selection function of DubinsStateSpace.cpp
 static unsigned char g_has[6], g_long;
 static double g_seg[6][3];
-static int g_calls[6];
+static int g_calls[6], g_sw;
 static void word(int w, Path *out)
 {
     ++g_calls[w];
@@ -24,6 +24,9 @@ extern "C"
     void vt_word_RLR(Path *out, double, double, double) { word(4, out); }
     void vt_word_LRL(Path *out, double, double, double) { word(5, out); }
     bool vt_is_long_path(double, double, double) { return g_long != 0; }
+    // switching functions of the classification table (float trigonometry): arbitrary values, one draw per call
+#define SW(n) double vt_sw_##n(double, double, double) { ++g_sw; return nondet_double(); }
+    SW(12) SW(13) SW(14_1) SW(21) SW(22_1) SW(22_2) SW(24) SW(31) SW(33_1) SW(33_2) SW(34) SW(41_1) SW(41_2) SW(42) SW(43)
 }
 extern "C" void harness_word_selection()
 {
@@ -53,7 +56,17 @@ extern "C" void harness_word_selection()
     }
 #else
     if (offered) vt_cover("classified word offered");
+    int total = 0;
+    for (int w = 0; w < 6; ++w) { total += g_calls[w]; VT_CHECK(g_calls[w] <= 1, "the classification evaluates no word twice"); }
+    VT_CHECK(total >= 1 && total <= 2 && g_sw <= 2, "the classification evaluates one or two words after at most two switching functions");
+    VT_CHECK(g_calls[4] == 0 && g_calls[5] == 0, "long paths are never CCC words");
     VT_CHECK(offered || p.length_[1] > 1e300, "the long-path branch returns a candidate a word solver offered (or the no-solution path)");
+    if (total == 2)
+    {
+        vt_cover("two-candidate class");
+        for (int w = 0; w < 4; ++w)
+            if (g_calls[w] && g_has[w]) VT_CHECK(p.length() <= g_seg[w][0] + g_seg[w][1] + g_seg[w][2], "a two-candidate class returns the shorter of its two words");
+    }
 #endif
     vt_cover("word selection end");
 }
